@@ -13,5 +13,5 @@ let of_spec s = match split_on '.' s with
 (* LayerContents() re-encodes the fields *)
 let desc = { fresh = ap_fresh; decode = ap_decode_into; serialize = Some ap_serialize; fields; contents = ap_hdr; payload = (fun l -> l.ap_payload);
   next = (fun _ _ -> "ip4"); render_panics = ap_render_panics; of_spec; junk_len = 64 }
-let run id ops out = run_generic desc id ops out
+let run id ops out = Lsmallutil.run_with_decf desc ap_decode_fn id ops out
 let registered = Registry.register "Lapsp" run
